@@ -204,6 +204,15 @@ def run(tier, v):
                 continue
             f.write(json.dumps({"id": i, "conns": [{"inter": per[k], "alone": alone[(crate, c)]} for k, c in enumerate(cs)]}) + "\n")
     r2 = vlib.tlc("TV_C07", pid=PID, workers=8, env={"TRACE": trace}, timeout=1800, heap="10g")
+
+    if tier == "thorough":
+        def mut(rows):
+            k = next(i for i, r_ in enumerate(rows) if any(c_["inter"] for c_ in r_["conns"]))
+            r_ = json.loads(json.dumps(rows[k]))
+            c_ = next(c_ for c_ in r_["conns"] if c_["inter"])
+            c_["inter"] = c_["inter"][:-1]
+            return rows[:20] + [r_], "one result of one connection is removed from an interleaved run"
+        v.binding.append(vlib.binding_demo("TV_C07", trace, mut, PID, workers=4, timeout=900, heap="4g"))
     for b in r2.lines.get("BAD", []):
         crate, cs, sc = meta[b["id"]]
         per = attribute(crate, inter[b["id"]], [lib[c] for c in cs])
